@@ -29,8 +29,8 @@ PLANS["C05"] = {
 }
 
 PLANS["C08"] = {
-    "quick": [J("writers", "p=1,f=1", 30), J("writers", "f=2", 60), J("writers2", "p=2,f=1", 60), J("writers2", "p=1,f=2", 60), J("race-client", "free-running, -race", 120, test="TestE3", shards=1, race=True)],
-    "thorough": [J("writers", "p=2,f=2,s=1", 900), J("writers2", "p=3,f=1,s=1,t=1", 600), J("race-client", "thorough", 300, test="TestE3", shards=1, race=True)],
+    "quick": [J("writers", "p=1,f=1", 30), J("writers", "f=2", 60), J("writers2", "p=2,f=1", 60), J("writers2", "p=1,f=2", 60), J("pingpair", "p=1,f=1,s=1", 40), J("race-client", "free-running, -race", 120, test="TestE3", shards=1, race=True)],
+    "thorough": [J("writers", "p=2,f=2,s=1", 900), J("writers2", "p=3,f=1,s=1,t=1", 600), J("writers2", "p=1,f=2,s=1", 400), J("pingpair", "p=2,f=1,s=2", 300), J("race-client", "thorough", 300, test="TestE3", shards=1, race=True)],
 }
 PLANS["C10"] = {
     "quick": [J("wedge", "p=1,f=1", 45), J("wedge", "f=2", 45), J("wedgeburst", "p=1,f=1", 45), J("wedgeblock", "f=2", 60)],
